@@ -55,9 +55,6 @@ func (a c02Ans) String() string {
 	return s
 }
 
-// class of the answer used in non-trivial keys / fingerprints (no numbers that depend on the request)
-func (a c02Ans) bodyClass() string { return a.Body }
-
 // c02Body materialises a body class for a request starting at `from` (0 when the request has no Range header).
 func c02Body(class string, from int64) []byte {
 	if from < 0 || from > c02Size {
@@ -137,11 +134,12 @@ func c02CR(class string, from int64) string {
 }
 
 // Alphabet levels.  Index 0 of every alphabet is the nominal answer.
-//   core: {200,206} x 8 bodies x Content-Range {correct,missing} (+ one cut), 4 error statuses, 1 redirect, no response
-//   std : {200,206} x 8 bodies x 4 Content-Range forms x cut {none,0,3}; 203 (an unexpected 2xx) x 2; 4 error statuses x 2 bodies
-//         (+429 with Retry-After); 302 -> {second storage host path, itself, no Location}; no response at all
-//   rich: std + 4 more bodies, 5 more Content-Range forms, cut at size-1, close-delimited bodies, 201, 6 more error
-//         statuses, 301/303/307/308
+//
+//	core: {200,206} x 8 bodies x Content-Range {correct,missing} (+ one cut), 4 error statuses, 1 redirect, no response
+//	std : {200,206} x 8 bodies x 4 Content-Range forms x cut {none,0,3}; 203 (an unexpected 2xx) x 2; 4 error statuses x 2 bodies
+//	      (+429 with Retry-After); 302 -> {second storage host path, itself, no Location}; no response at all
+//	rich: std + 4 more bodies, 5 more Content-Range forms, cut at size-1, close-delimited bodies, 201, 6 more error
+//	      statuses, 301/303/307/308
 const (
 	c02Core = iota
 	c02Std
@@ -355,23 +353,22 @@ func (s *c02Server) handle(conn net.Conn) {
 	}
 }
 
-var c02RangeRE = func() func(string) (int64, bool) {
-	return func(h string) (int64, bool) {
-		if !strings.HasPrefix(h, "bytes=") {
-			return 0, false
-		}
-		rest := strings.TrimPrefix(h, "bytes=")
-		i := strings.IndexByte(rest, '-')
-		if i <= 0 {
-			return 0, false
-		}
-		n, err := strconv.ParseInt(rest[:i], 10, 64)
-		if err != nil || n < 0 || n > c02Size {
-			return 0, false
-		}
-		return n, true
+// c02ParseRange understands the only form the client emits: "bytes=<from>-<last>".
+func c02ParseRange(h string) (int64, bool) {
+	if !strings.HasPrefix(h, "bytes=") {
+		return 0, false
 	}
-}()
+	rest := strings.TrimPrefix(h, "bytes=")
+	i := strings.IndexByte(rest, '-')
+	if i <= 0 {
+		return 0, false
+	}
+	n, err := strconv.ParseInt(rest[:i], 10, 64)
+	if err != nil || n < 0 || n > c02Size {
+		return 0, false
+	}
+	return n, true
+}
 
 // answer decides (through the explorer) and renders the raw response for one request.
 func (sc *c02Script) answer(site string, req *http.Request) (raw []byte) {
@@ -392,7 +389,7 @@ func (sc *c02Script) answer(site string, req *http.Request) (raw []byte) {
 	}()
 	idx := len(sc.reqs)
 	rh := req.Header.Get("Range")
-	from, ranged := c02RangeRE(rh)
+	from, ranged := c02ParseRange(rh)
 	if rh != "" && !ranged {
 		sc.toolErr = "client sent a Range header the harness does not understand: " + rh
 		return nil
@@ -539,7 +536,7 @@ func (h *c02H) runBasic(x *vx.X) vx.Result {
 	}
 	res.Violations = c02Judge("basic", class, d, before, after)
 	finalMove := before.class() + "->" + after.class()
-	if d.Reported == "ok" && before.Exists {
+	if d.Reported == "ok" && before.Exists && after.Reg {
 		finalMove += "(replaced)"
 	}
 	res.Outcome = fmt.Sprintf("basic|%s|%s|reqs=%d|%s|final:%s|part:%s", d.Reported, c02ErrClass(d.Err), len(reqs), class, finalMove, partAfter)
